@@ -4,6 +4,7 @@ package main
 
 import (
 	"fmt"
+	"strings"
 	"go/token"
 	"go/types"
 	"math/big"
@@ -364,6 +365,14 @@ func (ft *funcTrans) assumeWellTyped(t Term, st *State, guard string) {
 		for _, fi := range w.fieldsOf(t.Sort) {
 			ft.assumeWellTyped(Term{fmt.Sprintf("(%s %s)", q(fi.Acc), t.S), fi.Sort}, st, guard)
 		}
+		for _, inv := range w.P.Spec.StructInv[t.Sort.Name] {
+			f := strings.ReplaceAll(inv, "$v", t.S)
+			if guard == "true" {
+				w.addFact(f)
+			} else {
+				w.addFact(fmt.Sprintf("(=> %s %s)", guard, f))
+			}
+		}
 		return
 	default:
 		return
@@ -516,6 +525,29 @@ func (ft *funcTrans) havocAll(st *State) {
 	for _, h := range ft.allHeaps() {
 		if _, ok := w.heapSorts[h]; !ok {
 			continue // pass 2 declares lazily: universe heaps get their sort on first use
+		}
+		ft.newHeapVersion(st, h)
+	}
+	ft.bumpAlloc(st)
+}
+
+// preservedHeap: is heap h kept by a callee whose contract says "preserves pkg.T"?
+// Field heaps of the listed struct types and ghost heaps not named in an
+// assigns clause are kept.
+func preservedHeap(h string, pres []string) bool {
+	for _, p := range pres {
+		if strings.HasPrefix(h, "H_"+strings.ReplaceAll(p, ".", "_")+".") {
+			return true
+		}
+	}
+	return strings.HasPrefix(h, "G_ghost.")
+}
+
+func (ft *funcTrans) havocAllExcept(st *State, pres []string) {
+	w := ft.w
+	for _, h := range ft.allHeaps() {
+		if _, ok := w.heapSorts[h]; !ok || preservedHeap(h, pres) {
+			continue
 		}
 		ft.newHeapVersion(st, h)
 	}
